@@ -189,6 +189,15 @@ TABLE = {
             "visitor pairs node.completed = True with tracking.mark_completed. All are facts over every record history.",
             "Decides these structural clauses; producibility for arbitrary runtime state orders (the raise sites of the "
             "generator) and monotonicity of the clock itself are not decided."),
+    "C34": ("must-precede (sort before use across two cooperating functions), sibling agreement of column iteration, "
+            "one-cell-per-entry path count, loop-shape and guard-dominance rules on the sample-and-hold cursor",
+            "The row writer's cursor algorithm needs sorted values (established as a side effect of the header writer: "
+            "checked as must-precede in generate_csv_string), ascending de-duplicated row times over all values, the same "
+            "entry iteration in header and rows with exactly one cell per entry on every path, an advance that is a loop "
+            "(latest value at or before the row time even when several values share or precede it) and a cell taken from "
+            "the head only under head.tick_time <= row time (empty cell before a tag's first value). Each is necessary for "
+            "sample-and-hold on every plot log; R34d/R34e were violated by the pinned tree and are repaired (fixed entry).",
+            "Decides these structural clauses of csv_generator.py, not the emitted text for concrete plot logs (value-level)."),
     "C01": ("state-carriage completeness, self-lookup rule, origin-token (alias) propagation and validate-before-commit dominance",
             "Every runtime attribute the interpreter layer writes on AST nodes must be carried by extract_state/apply_state of "
             "its declaring class; lookups of a node id that may be the receiver's own must pass include_self=True; symbolic "
@@ -297,8 +306,6 @@ DESIGN_NA = {
            "any structural rule would merely restate them (no necessary condition weaker than the code itself)",
     "C29": "strict ordering and at-most-once-per-interval are numeric relations over runtime timestamps of a message "
            "stream; the only shape facts (strict > in two comparisons) would be frozen-fragment checks",
-    "C34": "value-level relation between recorded timestamps and emitted CSV cells for arbitrary plot logs; nothing "
-           "path-structural to decide",
 }
 
 ALL_IDS = [f"C{i:02d}" for i in range(1, 42)]
